@@ -173,7 +173,7 @@ PROPS = {
         "assumptions": ["panic payloads are compared as text (quoted name)"],
     },
     "C19": {
-        "statement": "C19_layout_invariant (relabelled / permuted / duplicated declarations give identical executed and printed tables, for every registration sequence), C19_names_irrelevant, C19_insert_invariant",
+        "statement": "C19_layout_invariant (relabelled / permuted / duplicated declarations give identical executed and printed tables, for every registration sequence), C19_names_irrelevant, C19_insert_invariant, C19_ids_and_tags_irrelevant, C19_rejected_add_frame (a rejected registration leaves nothing behind but a used-up id)",
         "engines": [{"engine": "invariance", "args": {"dump-layouts": "/verif/evidence/.C19.layouts"}, "quick": {"cases": 300}, "thorough": {"cases": 6000, "process-every": 25}},
                     {"engine": "invariance", "args": {"process-every": 0, "compare-layouts": "/verif/evidence/.C19.layouts"}, "quick": {"cases": 300}, "thorough": {"cases": 6000}, "nopar": True},
                     plan("plan,batch", quick=150),
